@@ -2,7 +2,8 @@
 (* C14 -- abstract (black-box) specification of a connection's outbound side,
    phrased over what a user and the peer can observe:
 
-     call / ret   a WritePacket, enter-config, leave-config or Close call starts / returns
+     call / ret   a WritePacket / BufferPacket, enter-config, leave-config or Close call
+                  starts / returns
      wire         the peer decoded the next packet from the byte stream
      sync         nothing is in flight and everything written so far has reached the peer
      eof          the peer saw the connection close
@@ -11,30 +12,36 @@
    return (Lin, a silent step): this is the spec traces of the real code are
    judged against; it knows nothing about mutexes, queue pointers or buffers.
 
-     write P (play-only packet)   config phase: appended to `held` (at most cap, the
+     write P (play-only packet)   config phase: added to `held` (at most cap, the
                                   cap+1st closes the connection and fails);
                                   play phase:   appended to `wire`
      write K (valid in config)    appended to `wire` in either phase
      enter                        phase := config
-     leave                        phase := play; `held` moves to the end of `wire` in order
+     leave                        phase := play; `held` moves to the end of `wire`
      close                        closed := TRUE
 
-   The peer must see exactly `wire`, in order (a prefix once closed): no loss, no
-   duplication, held packets after the leave and before any packet written later. *)
+   The order in which concurrently written packets were accepted into `held` cannot be
+   observed before they are released, so `held` is kept as a SET of packets stamped with
+   the logical times of their call and return, and `wire` as a sequence of such sets: the
+   peer must see the sets one after the other, and inside a set any order that respects
+   "A's write had returned before B's write was called => A before B" -- exactly the
+   orders the atomic-instant reading allows, without enumerating them.  So: no loss, no
+   duplication, held packets after the leave and before any packet written later, order
+   of writing preserved wherever there was one. *)
 EXTENDS Naturals, Sequences, FiniteSets
 
 VARIABLES phase,     \* "play" | "config"
-          held,      \* Seq(packet id)
-          wire,      \* Seq(packet id): what must arrive at the peer, in order
+          held,      \* set of [pkt, c, r]: c / r = logical time of the write's call / return (0: not yet)
+          wire,      \* Seq(set of [pkt, c, r]): what must still arrive at the peer
           closed,    \* BOOLEAN
-          open,      \* calls in progress: thread -> [op, kind, pkt, lin, res]
-          pos,       \* number of packets the peer has decoded so far
+          open,      \* calls in progress: thread -> [op, kind, pkt, c, lin, res]
+          clk,       \* logical clock: one tick per call / ret
           cap        \* bound of the holding queue
 
-avars == <<phase, held, wire, closed, open, pos, cap>>
+avars == <<phase, held, wire, closed, open, clk, cap>>
 
-AInit(c) == /\ phase = "play" /\ held = <<>> /\ wire = <<>> /\ closed = FALSE
-            /\ open = <<>> /\ pos = 0 /\ cap = c
+AInit(c) == /\ phase = "play" /\ held = {} /\ wire = <<>> /\ closed = FALSE
+            /\ open = <<>> /\ clk = 0 /\ cap = c
 
 Put(fn, k, v) == [x \in DOMAIN fn \cup {k} |-> IF x = k THEN v ELSE fn[x]]
 Drop(fn, k) == [x \in DOMAIN fn \ {k} |-> fn[x]]
@@ -42,54 +49,70 @@ Drop(fn, k) == [x \in DOMAIN fn \ {k} |-> fn[x]]
 \* op \in {"write", "enter", "leave", "close"}; kind \in {"P", "K", ""}
 Call(t, op, kind, pkt) ==
     /\ t \notin DOMAIN open
-    /\ open' = Put(open, t, [op |-> op, kind |-> kind, pkt |-> pkt, lin |-> FALSE, res |-> ""])
-    /\ UNCHANGED <<phase, held, wire, closed, pos, cap>>
+    /\ clk' = clk + 1
+    /\ open' = Put(open, t, [op |-> op, kind |-> kind, pkt |-> pkt, c |-> clk + 1,
+                             lin |-> FALSE, res |-> ""])
+    /\ UNCHANGED <<phase, held, wire, closed, cap>>
 
 Done(t, r) == open' = [open EXCEPT ![t].lin = TRUE, ![t].res = r]
 
 \* the instant at which the call takes effect
 Lin(t) ==
     /\ t \in DOMAIN open /\ ~open[t].lin
-    /\ LET o == open[t] IN
+    /\ LET o == open[t]
+           rec == [pkt |-> o.pkt, c |-> o.c, r |-> 0]
+       IN
          CASE o.op = "write" ->
                 IF closed
                   THEN Done(t, "fail") /\ UNCHANGED <<phase, held, wire, closed>>
                   ELSE IF o.kind = "P" /\ phase = "config"
-                         THEN IF Len(held) >= cap
+                         THEN IF Cardinality(held) >= cap
                                 THEN /\ closed' = TRUE /\ Done(t, "fail")
                                      /\ UNCHANGED <<phase, held, wire>>
-                                ELSE /\ held' = Append(held, o.pkt) /\ Done(t, "ok")
+                                ELSE /\ held' = held \cup {rec} /\ Done(t, "ok")
                                      /\ UNCHANGED <<phase, wire, closed>>
-                         ELSE /\ wire' = Append(wire, o.pkt) /\ Done(t, "ok")
+                         ELSE /\ wire' = Append(wire, {rec}) /\ Done(t, "ok")
                               /\ UNCHANGED <<phase, held, closed>>
            [] o.op = "enter" ->
                 /\ phase' = "config" /\ Done(t, "ok")
                 /\ UNCHANGED <<held, wire, closed>>
            [] o.op = "leave" ->
                 /\ phase' = "play" /\ Done(t, "ok")
-                /\ IF closed THEN UNCHANGED <<held, wire>>
-                             ELSE wire' = wire \o held /\ held' = <<>>
+                /\ IF closed \/ held = {} THEN UNCHANGED <<held, wire>>
+                                          ELSE wire' = Append(wire, held) /\ held' = {}
                 /\ UNCHANGED closed
            [] o.op = "close" ->
                 /\ closed' = TRUE /\ Done(t, "ok")
                 /\ UNCHANGED <<phase, held, wire>>
-    /\ UNCHANGED <<pos, cap>>
+    /\ UNCHANGED <<clk, cap>>
+
+\* stamp the return time on the call's packet, wherever it waits
+Stamp(S, p, now) == {IF h.pkt = p /\ h.r = 0 THEN [h EXCEPT !.r = now] ELSE h : h \in S}
 
 \* the call returns with the result the real code reported ("ok" | "fail")
 Ret(t, r) ==
     /\ t \in DOMAIN open /\ open[t].lin
     /\ open[t].op = "write" => open[t].res = r
+    /\ clk' = clk + 1
+    /\ IF open[t].op = "write" /\ open[t].res = "ok"
+         THEN /\ held' = Stamp(held, open[t].pkt, clk + 1)
+              /\ wire' = [i \in DOMAIN wire |-> Stamp(wire[i], open[t].pkt, clk + 1)]
+         ELSE UNCHANGED <<held, wire>>
     /\ open' = Drop(open, t)
-    /\ UNCHANGED <<phase, held, wire, closed, pos, cap>>
+    /\ UNCHANGED <<phase, closed, cap>>
 
-\* the peer decodes the next packet: it is the next one of `wire`
+\* the peer decodes the next packet: it belongs to the first set still expected, and no
+\* packet of that set whose write had returned before this one's was called is still missing
 Wire(p) ==
-    /\ pos < Len(wire) /\ wire[pos + 1] = p
-    /\ pos' = pos + 1
-    /\ UNCHANGED <<phase, held, wire, closed, open, cap>>
+    /\ wire # <<>>
+    /\ \E h \in Head(wire) :
+         /\ h.pkt = p
+         /\ \A g \in Head(wire) \ {h} : ~(g.r # 0 /\ g.r < h.c)
+         /\ wire' = (IF Head(wire) = {h} THEN Tail(wire) ELSE <<Head(wire) \ {h}>> \o Tail(wire))
+    /\ UNCHANGED <<phase, held, closed, open, clk, cap>>
 
 \* quiescent and flushed: everything on `wire` has arrived; the connection is open
-Sync == /\ open = <<>> /\ ~closed /\ pos = Len(wire)
+Sync == /\ open = <<>> /\ ~closed /\ wire = <<>>
         /\ UNCHANGED avars
 
 \* a flush through the connection failed: only a closed connection does that
